@@ -89,7 +89,7 @@ def run_threads(conns, queries, params, schedule):
         _LOCAL.tag = tags[k]
         try:
             cur = conns[k].execute(queries[k], params[k])
-            results[k] = proto.show_result(cur.description, cur.fetchall(), proto.Opaque())
+            results[k] = proto.show_result(cur.description, cur.fetchall(), proto.Content())
         except Exception as exc:  # noqa: BLE001
             results[k] = 'EXC:%s:%s' % (type(exc).__name__, exc)
         finally:
@@ -111,7 +111,7 @@ def serial(conns, queries, params):
     for c, q, p in zip(conns, queries, params):
         try:
             cur = c.execute(q, p)
-            out.append(proto.show_result(cur.description, cur.fetchall(), proto.Opaque()))
+            out.append(proto.show_result(cur.description, cur.fetchall(), proto.Content()))
         except Exception as exc:  # noqa: BLE001
             out.append('EXC:%s:%s' % (type(exc).__name__, exc))
     return out
